@@ -384,3 +384,98 @@ Proof.
 Qed.
 
 End Momentum.
+
+(* ==================================================================================================== *)
+(* Examples over Qc: the hypotheses are satisfiable and the STATEMENTS are re-checked by computation (vm_compute,
+   independent of the proofs) with the proper 3-4-5 rotation R345 and the improper Rimp of Proofs/RotationP.v.
+   The transcendental closures are stand-ins: sqrt = id, exp = 1, and a "Boys function" that depends on m and on its
+   argument (the theorems assume nothing about fboys). *)
+From Coq Require Import ZArith QArith Qcanon.
+Definition exBoys (m : nat) (x : Qc) : Qc := Qcplus (Qcmult x x) (qc_of (Z.of_nat (S m)) 1).
+Definition exKQm : Fops Qc := QcK true (Q2Qc 3) (fun x => x) (fun _ => Q2Qc 1) (fun x => x) exBoys.
+Section Examples.
+Let KQ : Fops Qc := exKQm.
+Let KQf : is_field KQ := QcK_field _ _ _ _ _ _.
+Let q (n : Z) (d : positive) : Qc := qc_of n d.
+
+Lemma exKQm_char0 : forall n, ofnat KQ (S n) <> f0 KQ.
+Proof. apply QcK_char0. Qed.
+Lemma exKQm_exp_hom : forall x y, fexp KQ (fadd KQ x y) = fmul KQ (fexp KQ x) (fexp KQ y).
+Proof. intros x y. apply Qc_is_canon. vm_compute. reflexivity. Qed.
+Lemma exKQm_R345 : orthogonal KQ R345. Proof. exact orthogonal_R345. Qed.
+Lemma exKQm_Rimp : orthogonal KQ Rimp. Proof. exact orthogonal_Rimp. Qed.
+Lemma exKQm_psum : psum KQ (q 3 2) (q 2 3) <> f0 KQ. Proof. exact ex_psum. Qed.
+
+(* the theorems instantiated: nothing left to assume *)
+Example point_charge_rotation_345 :
+  forall ca cb,
+  Jsum KQ (fun a' => Jsum KQ (fun b' =>
+       pc_prim KQ (mapply KQ R345 exC) (rot_shell KQ R345 exA) (rot_shell KQ R345 exB) a' b' (q 3 2) (q 2 3))
+     (rot_expand KQ R345 cb)) (rot_expand KQ R345 ca)
+  = pc_prim KQ exC exA exB ca cb (q 3 2) (q 2 3).
+Proof.
+  intros. apply (point_charge_prim_rotation_covariant KQ KQf exKQm_char0 R345 exC exA exB ca cb _ _
+                   exKQm_R345 exKQm_psum).
+Qed.
+Example momentum_rotation_improper :
+  forall k ca cb,
+  Jsum KQ (fun a' => Jsum KQ (fun b' =>
+       momk KQ k (rot_shell KQ Rimp exA) (rot_shell KQ Rimp exB) a' b' (q 3 2) (q 2 3))
+     (rot_expand KQ Rimp cb)) (rot_expand KQ Rimp ca)
+  = sum3 KQ (fun i => fmul KQ (matf Rimp k i) (momk KQ i exA exB ca cb (q 3 2) (q 2 3))).
+Proof.
+  intros. apply (momentum_prim_rotation_covariant KQ KQf exKQm_exp_hom Rimp k exA exB ca cb _ _
+                   exKQm_Rimp exKQm_psum).
+Qed.
+
+(* the statements re-evaluated numerically *)
+Definition pc_cov_check (R : @mat3 Qc) (ca cb : comp) : bool :=
+  Qeq_bool
+    (Jsum KQ (fun a' => Jsum KQ (fun b' =>
+         pc_prim KQ (mapply KQ R exC) (rot_shell KQ R exA) (rot_shell KQ R exB) a' b' (q 3 2) (q 2 3))
+       (rot_expand KQ R cb)) (rot_expand KQ R ca))
+    (pc_prim KQ exC exA exB ca cb (q 3 2) (q 2 3)).
+Definition mom_vec_check (R : @mat3 Qc) (k : axis) (ca cb : comp) : bool :=
+  Qeq_bool
+    (Jsum KQ (fun a' => Jsum KQ (fun b' =>
+         momk KQ k (rot_shell KQ R exA) (rot_shell KQ R exB) a' b' (q 3 2) (q 2 3))
+       (rot_expand KQ R cb)) (rot_expand KQ R ca))
+    (sum3 KQ (fun i => fmul KQ (matf R k i) (momk KQ i exA exB ca cb (q 3 2) (q 2 3)))).
+Definition ex_pairs : list (comp * comp) :=
+  [((1, 0, 0), (0, 1, 0)); ((0, 1, 1), (1, 0, 0)); ((2, 0, 0), (1, 1, 0)); ((0, 0, 0), (0, 0, 1));
+   ((0, 1, 0), (1, 0, 1))]%nat.
+
+Example point_charge_rotation_computed :
+  forallb (fun R => forallb (fun t => pc_cov_check R (fst t) (snd t)) ex_pairs) [R345; Rimp] = true.
+Proof. vm_compute. reflexivity. Qed.
+(* not vacuous: without the representation matrices the p-p value DOES change *)
+Example point_charge_rotation_not_invariant :
+  Qeq_bool (pc_prim KQ (mapply KQ R345 exC) (rot_shell KQ R345 exA) (rot_shell KQ R345 exB)
+              (1, 0, 0)%nat (0, 1, 0)%nat (q 3 2) (q 2 3))
+           (pc_prim KQ exC exA exB (1, 0, 0)%nat (0, 1, 0)%nat (q 3 2) (q 2 3)) = false.
+Proof. vm_compute. reflexivity. Qed.
+Example momentum_rotation_computed :
+  forallb (fun R => forallb (fun k => forallb (fun t => mom_vec_check R k (fst t) (snd t)) ex_pairs)
+     [AX; AY; AZ]) [R345; Rimp] = true.
+Proof. vm_compute. reflexivity. Qed.
+(* the component index transforms with R, not with R^T: the transposed law fails for the (non-symmetric) R345 *)
+Example momentum_rotation_transposed_law_fails :
+  Qeq_bool
+    (Jsum KQ (fun a' => Jsum KQ (fun b' =>
+         momk KQ AX (rot_shell KQ R345 exA) (rot_shell KQ R345 exB) a' b' (q 3 2) (q 2 3))
+       (rot_expand KQ R345 (0, 1, 0)%nat)) (rot_expand KQ R345 (1, 0, 0)%nat))
+    (sum3 KQ (fun i => fmul KQ (matf R345 i AX) (momk KQ i exA exB (1, 0, 0)%nat (0, 1, 0)%nat (q 3 2) (q 2 3))))
+  = false.
+Proof. vm_compute. reflexivity. Qed.
+End Examples.
+
+Lemma rotation_more_hypotheses_satisfiable :
+  exists (F : Type) (K : Fops F) (R1 R2 : @mat3 F) (alpha beta : F),
+    is_field K /\ (forall n, ofnat K (S n) <> f0 K)
+    /\ (forall x y, fexp K (fadd K x y) = fmul K (fexp K x) (fexp K y))
+    /\ orthogonal K R1 /\ orthogonal K R2 /\ psum K alpha beta <> f0 K.
+Proof.
+  exists Qc, exKQm, R345, Rimp, (qc_of 3 2), (qc_of 2 3).
+  split; [apply QcK_field|]. split; [apply exKQm_char0|]. split; [apply exKQm_exp_hom|].
+  split; [apply exKQm_R345|]. split; [apply exKQm_Rimp|apply exKQm_psum].
+Qed.
